@@ -11,9 +11,10 @@ the call-graph closure of the property's observables and confirmed by reading); 
 SPLIT = [("C15", "r15_1"), ("C15", "r15_4"), ("C15", "r15_5")]
 CLEAN = [("C15", "r15_2"), ("C15", "r15_3")]
 # (the segment == behind the "identical segments" marker of PlanarCurve.__and__ is R07.11)
-INTER = [("C07", "r07_11"), ("C14", "r14_1"), ("C14", "r14_2"), ("C14", "r14_3"), ("C14", "r14_4"), ("C14", "r14_5"), ("C14", "r14_7")]
+INTER = [("C07", "r07_11"), ("C14", "r14_1"), ("C14", "r14_2"), ("C14", "r14_3"), ("C14", "r14_4"), ("C14", "r14_5"), ("C14", "r14_7"),
+         ("C14", "r14_9")]
 POINT = [("C02", "r02_1"), ("C02", "r02_2"), ("C18", "r18_9"), ("C18", "r18_5"), ("C18", "r18_6"), ("C18", "r18_11"),
-         ("C12", "r12_2"), ("C13", "r13_4"), ("C17", "r17_8"), ("C17", "r17_9"), ("C18", "r18_13")]
+         ("C12", "r12_2"), ("C13", "r13_4"), ("C17", "r17_8"), ("C17", "r17_9"), ("C18", "r18_13"), ("C18", "r18_14")]
 ALGEBRA = [("C13", "r13_4"), ("C17", "r17_8")]           # the arithmetic of points and boxes everything rests on
 COMPOSITE = [("C02", "r02_3b"), ("C03", "r03_2b")]
 CONTAIN = [("C03", "r03_1"), ("C03", "r03_3"), ("C03", "r03_4")]
@@ -29,7 +30,8 @@ BORROW = {
     # operators: crossings -> split -> classify pieces (point membership) -> follow paths -> group; containment short-cuts
     "C01": [("C15", "r15_1"), ("C15", "r15_5")] + INTER + POINT + COMPOSITE + CONTAIN + SIGN + CHAIN,
     # point membership: orientation sign, on-curve test, angle wrap
-    "C02": [("C18", "r18_5"), ("C18", "r18_6"), ("C18", "r18_11"), ("C12", "r12_2"), ("C17", "r17_9"), ("C18", "r18_13")] + SIGN + ALGEBRA,
+    "C02": [("C18", "r18_5"), ("C18", "r18_6"), ("C18", "r18_11"), ("C12", "r12_2"), ("C17", "r17_9"), ("C18", "r18_13"),
+            ("C18", "r18_14")] + SIGN + ALGEBRA,
     # containment samples points of the candidate and uses its crossings with the boundary and the areas
     "C03": [("C02", "r02_1"), ("C02", "r02_2"), ("C02", "r02_3b"), ("C18", "r18_9"), ("C18", "r18_5")] + INTER[:6] + SIGN + FLOATS,
     # measures of operator results: the whole operator pipeline
@@ -37,20 +39,24 @@ BORROW = {
     # well-formed results: the whole operator pipeline
     "C06": [("C01", "r01_13"), ("C15", "r15_4"), ("C15", "r15_5")] + INTER + POINT + CONTAIN + [("C01", "r01_7"), ("C01", "r01_8")] + BOX + SIGN,
     # == of curves: point-on-curve filter, boxes
-    "C07": [("C18", "r18_5"), ("C18", "r18_11"), ("C17", "r17_9"), ("C18", "r18_13")] + BOX + ALGEBRA,
+    "C07": [("C18", "r18_5"), ("C18", "r18_11"), ("C17", "r17_9"), ("C18", "r18_13"), ("C18", "r18_14")] + BOX + ALGEBRA,
     # operands unchanged: the one in-place write the operators make on an operand is JordanCurve.split, allowed because
     # it only subdivides -- which is what these rules decide
     "C08": [("C01", "r01_13")] + SPLIT + [("C15", "r15_2"), ("C18", "r18_10")],
     # history independence: operands are split (and their pieces cleaned) in place by the operators
     "C10": [("C01", "r01_13"), ("C15", "r15_1"), ("C15", "r15_5")] + CLEAN + CHAIN,
     "C14": [("C07", "r07_11"), ("C18", "r18_13")] + ALGEBRA,
-    "C04": ALGEBRA + [("C18", "r18_13")],
+    # the complement of a shape integrates the reversed boundary: reversal must be exact for every degree
+    "C04": ALGEBRA + [("C18", "r18_13"), ("C05", "r05_2")],
     "C09": ALGEBRA,
-    "C12": ALGEBRA,
+    # the containment of two simple shapes answers through an axis-aligned shortcut (disjoint boxes) or through the
+    # general branch, depending on how the drawing is turned: the two must agree (rows with / without box overlap)
+    "C12": ALGEBRA + [("C03", "r03_1")],
     "C17": [("C13", "r13_4"), ("C18", "r18_13")],
     "C18": ALGEBRA,
-    # exact crossing parameters come from the exact line solver
-    "C13": [("C14", "r14_3"), ("C14", "r14_5")],
+    # exact crossing parameters come from the exact line solver; they become exact vertices only if the split addresses
+    # the segment they were computed on and cuts it at them
+    "C13": [("C14", "r14_3"), ("C14", "r14_5"), ("C15", "r15_4"), ("C15", "r15_5"), ("C18", "r18_10")],
     # factories build their curve through from_vertices / the segments setter
     "C16": CHAIN + SIGN + VERTICES,
     # directly constructed composites answer containment like the operator-built ones
